@@ -478,7 +478,11 @@ int main(int argc, char** argv)
         std::cout.flush();
         const pid_t pid = fork();
         if (pid == 0) {
-            alarm(20);      // a case that does not terminate (e.g. a corrupted list ring) dies with SIGALRM
+#if defined(__SANITIZE_ADDRESS__)
+            alarm(20);
+#else
+            alarm(3);       // a case that does not terminate (e.g. a corrupted list ring) dies with SIGALRM
+#endif
             if (kind == "vi") { VecRun<IntAd> r; r.run(id, ops); }
             else if (kind == "vs") { VecRun<StrAd> r; r.run(id, ops); }
             else if (kind == "m") { if (params.size() >= 8 && params[2] >= 1 && params[6] >= 1) { MapRun r(params); r.run(id, ops); } }
